@@ -16,6 +16,7 @@ from sim.models import kdq as K
 from sim.seams import record_np_random
 
 PROP = "C09"
+FORKS = True      # snapshot / restore events (core.Ctx.maybe_fork)
 LEVEL = "exploration"
 RULE = (
     "KdqTreeBatch: seeded batch histories (5-14 batches of 10-80 rows, 1-3 dims, drift batches, with / without explicit "
@@ -166,6 +167,7 @@ def run_batch(case, ctx, log, km):
 
     for i, (op, rows, seed) in enumerate(case["events"]):
         ctx.step = i
+        det = ctx.maybe_fork(det)
         X = np.array(rows, dtype=float)
         del log[:]
         np.random.seed(seed)
@@ -251,6 +253,7 @@ def run_stream(case, ctx, log, km):
     prop_lb = 2e-10
     for i, (op, row, seed) in enumerate(case["events"]):
         ctx.step = i
+        det = ctx.maybe_fork(det)
         x = np.array([row], dtype=float)
         if prev == "drift":
             phase, refbuf = "ref", []
